@@ -48,6 +48,9 @@ def events_for(kind: int) -> list[int]:
     return [0, 1, 2, 3] if "context_timeout" not in KINDS[kind][2] else [0, 1, 2]
 
 
+STATES: set[Any] = set()
+
+
 def run_case(kind: int, seq: tuple[tuple[int, int], ...]) -> list[tuple[str, str]]:
     label, cls, kwargs = KINDS[kind]
     viols: list[tuple[str, str]] = []
@@ -112,6 +115,7 @@ def run_case(kind: int, seq: tuple[tuple[int, int], ...]) -> list[tuple[str, str
 
             def observe(tag: str) -> None:
                 got = dev.state
+                STATES.add((kind, got, getattr(dev, "counter", None), w.loop.timer_profile()))
                 if got != state:
                     viols.append((f"state-differs:{'reset' if has_reset else 'plain'}", f"{tag}: device reports {got}, reference {state} (deadline {deadline}); {label} trace={trace}"))
                 if has_ctx and last_t is not None and not mixed and now < last_t + CTX:
@@ -228,6 +232,9 @@ def worker(k: int, n: int, depth: int) -> Part:
             part.viol(s, d, [kind, [list(e) for e in seq]], rank=(len(seq), seq))
         if i < 2:
             part.sample([kind, [list(e) for e in seq]])
+    for k_ in STATES:
+        part.state(k_)
+    STATES.clear()
     return part
 
 
